@@ -366,13 +366,24 @@ func (p *Program) verifyFunc(t *target) (vc *VC, rep *FuncReport) {
 		}
 	}
 	// frame: everything outside the modifies clause is unchanged (for objects that existed at entry)
-	if len(x.returns) > 0 {
+	if len(x.returns) > 0 && !c.Opts["lockhavoc"] {
+		// (with lockhavoc the guarded fields change "by themselves" at lock acquisition: no frame claim)
 		x.frameObligations(final, entrySnap, c)
 	}
 	// vacuity probe: the end of the function must be reachable under the preconditions
 	if len(x.returns) > 0 {
 		o := &Obl{Name: rep.Name + "#vacuity.exit", Class: "vacuity", PC: final.pc, Goal: "false", Func: rep.Name, Vacuity: true, Desc: "some return is reachable under the preconditions and callee contracts"}
 		vc.addObl(o)
+	}
+	if c.Opts["trusted"] && c.Opts["own"] {
+		// functional contract assumed, body checked for lock ownership only
+		var keep []*Obl
+		for _, o := range vc.obls {
+			if o.Class == "own" {
+				keep = append(keep, o)
+			}
+		}
+		vc.obls = keep
 	}
 	rep.Spawns = x.spawns
 	for n := range vc.notes {
@@ -412,18 +423,117 @@ func stripParen(e *SExpr) *SExpr {
 	return e
 }
 
-// lockEvent: bookkeeping of held locks (ownership obligations are generated in own.go)
+// lockEvent: bookkeeping of held locks; on acquisition the fields the lock guards are havocked
+// (another goroutine may have changed them while the lock was not held)
 func (x *Exec) lockEvent(st *State, lockText, op string, call *ast.CallExpr) {
 	switch op {
 	case "Lock", "RLock":
 		st.held[lockText] = true
-		x.onAcquire(st, lockText, op == "Lock")
+		if op == "Lock" {
+			st.held[lockText+"#w"] = true
+		}
+		x.onAcquire(st, lockText, call)
 	case "Unlock", "RUnlock":
 		delete(st.held, lockText)
+		delete(st.held, lockText+"#w")
 	}
 }
 
-func (x *Exec) onAcquire(st *State, lockText string, write bool) {}
+// guardsOf: the guard declarations of the struct type t (pointer or value)
+func (x *Exec) guardsOf(t types.Type) []*Guard {
+	if p, ok := t.Underlying().(*types.Pointer); ok {
+		t = p.Elem()
+	}
+	n, ok := t.(*types.Named)
+	if !ok || n.Obj().Pkg() == nil {
+		return nil
+	}
+	return x.prog.specs.Guards[n.Obj().Pkg().Path()+"."+n.Obj().Name()]
+}
+
+func (x *Exec) onAcquire(st *State, lockText string, call *ast.CallExpr) {
+	// only for functions whose contract asks for the concurrent reading of lock acquisition
+	if x.contract == nil || !x.contract.Opts["lockhavoc"] {
+		return
+	}
+	selx, ok := unparen(call.Fun).(*ast.SelectorExpr) // <base>.<mu>.Lock
+	if !ok {
+		return
+	}
+	musel, ok := unparen(selx.X).(*ast.SelectorExpr)
+	if !ok {
+		return
+	}
+	bt := x.typeOf(musel.X)
+	for _, g := range x.guardsOf(bt) {
+		if g.Mu != musel.Sel.Name {
+			continue
+		}
+		// havoc every guarded field of the object
+		pt, isPtr := bt.Underlying().(*types.Pointer)
+		if !isPtr {
+			continue
+		}
+		base := x.ev(st, musel.X)
+		cur := x.deref(st, base, pt.Elem())
+		inf := x.vc.info(cur.Sort)
+		if inf == nil || inf.Kind != kStruct {
+			continue
+		}
+		nv := cur
+		for _, f := range inf.Fields {
+			if g.Fields[f.Name] {
+				fv := x.havocVal(st, "locked_"+f.Name, f.GoT)
+				nv = Val{T: x.vc.updField(nv, f.Name, fv.T), Sort: cur.Sort, GoT: cur.GoT}
+				nv = x.name("acq", nv)
+			}
+		}
+		x.storeRef(st, base, pt.Elem(), nv)
+		x.vc.note("fields guarded by " + lockText + " havocked at its acquisition (other goroutines may have changed them)")
+	}
+}
+
+// ownCheck: a read (or write) of a guarded field requires the guarding lock (write lock for writes)
+func (x *Exec) ownCheck(st *State, baseExpr ast.Expr, field string, write bool, pos token.Pos) {
+	if x.contract == nil || !x.contract.Opts["own"] || x.dry > 0 || len(x.inRes) > 0 {
+		return
+	}
+	bt := x.typeOf(baseExpr)
+	gs := x.guardsOf(bt)
+	if write && len(gs) > 0 {
+		guarded := false
+		for _, g := range gs {
+			if g.Fields[field] {
+				guarded = true
+			}
+		}
+		if !guarded {
+			// fields not named by a guards clause are immutable after construction
+			x.assert(st, "own", "false", fmt.Sprintf("write of %s.%s, a field no lock guards (immutable after construction)", x.prog.text(baseExpr), field), pos)
+			return
+		}
+	}
+	for _, g := range gs {
+		if !g.Fields[field] {
+			continue
+		}
+		lockText := x.prog.text(baseExpr) + "." + g.Mu
+		okHeld := st.held != nil && st.held[lockText]
+		if write {
+			okHeld = okHeld && st.held[lockText+"#w"]
+		}
+		kind := "read"
+		if write {
+			kind = "write"
+		}
+		goal := "false"
+		if okHeld {
+			goal = "true"
+		}
+		x.assert(st, "own", goal, fmt.Sprintf("%s of %s.%s with %s held", kind, x.prog.text(baseExpr), field, lockText), pos)
+	}
+}
+
 
 // expandConj splits a clause into independently provable conjuncts: through &&, through the
 // consequent of ==>, and through calls of non-recursive spec functions whose body is a conjunction.
